@@ -364,7 +364,10 @@ fn main() {
         let still = match case {
             Some(case) => engine::with_big_stack(move || {
                 engine::install_gc_observer();
-                replay_fn(&case)
+                let r = replay_fn(&case);
+                // (this thread ends here: its journal must not look like an input that makes no progress)
+                engine::note_current("done", "");
+                r
             })
             .map(|v| v.class == kf.class)
             .unwrap_or(false),
